@@ -116,9 +116,9 @@ func runE2EMembers(t *rapid.T, c *e2eCase) {
 	canon, _ := json.Marshal(c)
 	ca := cluster.GetClusterMngAdapterInstance()
 	// ---- model
-	members := map[int]int{}                 // host -> weight
-	sick := make([]api.HealthFlag, c.N)      // conditions set on a host (kept only while it is a member)
-	var mu sync.Mutex                        // the upstream script updates the model in the middle of an exchange
+	members := map[int]int{}                   // host -> weight
+	sick := make([]api.HealthFlag, c.N)        // conditions set on a host (kept only while it is a member)
+	var mu sync.Mutex                          // the upstream script updates the model in the middle of an exchange
 	healthyMembers := func() (all, ok []int) { // caller holds mu
 		for h := range members {
 			all = append(all, h)
